@@ -29,6 +29,7 @@ const (
 	// planner findings (the tree T is not a faithful compilation of the operation)
 	findingUnionTypename = "C02-plan-union-typename-hoisted"
 	findingCopyPossible  = "C02-plan-object-copy-drops-possible-types"
+	findingConcreteNoTypename = "C02-concrete-object-without-typename-drops-conditioned-fields"
 )
 
 var resolvablePart = pbt.Part[Case]{Name: "resolvable", Quick: 30000, Thorough: 500000, Gen: genCase(false),
@@ -83,14 +84,22 @@ func genCase(rootReplace bool) func(t *rapid.T) Case {
 			if d == "" {
 				continue
 			}
-			if steer && root.k == jObj && predictsInnerListPanic(m.allOffenders(root)) {
-				// known finding: the process-level outcome is a panic, nothing behind it could be
-				// checked. Drop this mutation and keep searching with the others.
-				root = snap
-				if !contains(c.Steered, findingPanic) {
-					c.Steered = append(c.Steered, findingPanic)
+			if steer && root.k == jObj {
+				// known findings: drop this mutation and keep searching with the others
+				id := ""
+				switch {
+				case predictsInnerListPanic(m.allOffenders(root)):
+					id = findingPanic // the outcome is a panic, nothing behind it could be checked
+				case m.concreteNoTypenameClass(root):
+					id = findingConcreteNoTypename
 				}
-				continue
+				if id != "" {
+					root = snap
+					if !contains(c.Steered, id) {
+						c.Steered = append(c.Steered, id)
+					}
+					continue
+				}
 			}
 			c.Muts = append(c.Muts, d)
 		}
@@ -245,32 +254,82 @@ func checkCase(c Case, o *pbt.Rec, engine bool) pbt.Verdict {
 	for _, u := range uf {
 		o.Label("plan:unfaithful:" + u.kind)
 	}
-	if len(uf) > 0 && (len(res.viol) > 0 || len(res.uncovered) > 0) {
-		return pbt.Bad("the planner-built tree disagrees with the operation: %v\n  %s%s", uf, strings.Join(res.viol, "\n  "), ctxt())
-	}
 	if rootReplaced {
 		return rootReplacedVerdict(o, m, res, r.out, ctxt)
 	}
 	labelResult(o, m, res)
+	if len(res.viol) == 0 && len(res.uncovered) == 0 {
+		return pbt.OK
+	}
+	var lines []string
 	if len(res.viol) > 0 {
-		return pbt.Bad("%s%s", strings.Join(res.viol, "\n  "), ctxt())
+		lines = append(lines, violText(res.viol))
 	}
-	if len(res.uncovered) > 0 {
-		known := true
-		var lines []string
-		for _, u := range res.uncovered {
-			if !recogniseDupPath(u, res.errs) {
-				known = false
+	dupPathOnly := len(res.viol) == 0
+	for _, u := range res.uncovered {
+		if !recogniseDupPath(u, res.errs) {
+			dupPathOnly = false
+		}
+		lines = append(lines, fmt.Sprintf("clause 5: %s was replaced by null but no error carries the response path of an offender below it (offenders %v; error paths: %s)",
+			pathKey(u.path), u.offs, res.errPaths()))
+	}
+	msg := strings.Join(lines, "\n  ")
+	if dupPathOnly {
+		return pbt.BadKnown(findingDupPath, "%s%s", msg, ctxt())
+	}
+	// Attribution to the planner: the tree disagrees with the operation at a position that a
+	// violation is about. Each such disagreement must be recognised, otherwise it is reported.
+	if rel := relevantUnfaithful(uf, res); len(rel) > 0 {
+		msg = fmt.Sprintf("the planner-built tree disagrees with the operation: %v\n  %s", rel, msg)
+		id := ""
+		for _, u := range rel {
+			k := recognisePlanFinding(u)
+			if k == "" {
+				return pbt.Bad("%s%s", msg, ctxt())
 			}
-			lines = append(lines, fmt.Sprintf("clause 5: %s was replaced by null but no error carries the response path of an offender below it (offenders %v; error paths: %s)",
-				pathKey(u.path), u.offs, res.errPaths()))
+			if id == "" {
+				id = k
+			}
 		}
-		if known {
-			return pbt.BadKnown(findingDupPath, "%s%s", strings.Join(lines, "\n  "), ctxt())
-		}
-		return pbt.Bad("%s%s", strings.Join(lines, "\n  "), ctxt())
+		return pbt.BadKnown(id, "%s%s", msg, ctxt())
 	}
-	return pbt.OK
+	return pbt.Bad("%s%s", msg, ctxt())
+}
+
+// relevantUnfaithful keeps the plan/operation disagreements located at or above a position
+// some violation (or uncovered replacement) is about.
+func relevantUnfaithful(uf []unfaithful, res result) []unfaithful {
+	var out []unfaithful
+	for _, u := range uf {
+		rel := false
+		for _, v := range res.viol {
+			if v.kind == "errors-on-well-typed" || hasPrefixPath(v.path, u.p) {
+				rel = true
+			}
+		}
+		for _, r := range res.uncovered {
+			if hasPrefixPath(r.path, u.p) || hasPrefixPath(u.p, r.path) {
+				rel = true
+			}
+		}
+		if rel {
+			out = append(out, u)
+		}
+	}
+	return out
+}
+
+// recognisePlanFinding maps one plan/operation disagreement to a recorded planner finding.
+func recognisePlanFinding(u unfaithful) string {
+	switch {
+	case (u.kind == "key-missing-in-plan" || u.kind == "key-extra-in-plan") && u.typenameField && u.unionTNClass:
+		return findingUnionTypename
+	case u.kind == "key-missing-in-plan" && u.absentTypename:
+		return findingConcreteNoTypename
+	case u.kind == "possible-types" && u.emptyPossible:
+		return findingCopyPossible
+	}
+	return ""
 }
 
 // rootReplacedVerdict: driver (ii) with a subgraph "data" that is not an object. The
@@ -279,10 +338,10 @@ func checkCase(c Case, o *pbt.Rec, engine bool) pbt.Verdict {
 func rootReplacedVerdict(o *pbt.Rec, m *model, res result, out []byte, ctxt func() string) pbt.Verdict {
 	var viol []string
 	for _, v := range res.viol {
-		if strings.HasPrefix(v, "clause 3:") || strings.HasPrefix(v, "clause 4: data is null") {
+		if v.kind == "errors-on-well-typed" || (len(v.path) == 0 && (v.kind == "replaced-without-offender" || v.kind == "not-nearest-nullable")) {
 			continue
 		}
-		viol = append(viol, v)
+		viol = append(viol, v.msg)
 	}
 	if len(res.errs) == 0 {
 		viol = append(viol, "subgraph data is not an object but no error is reported")
@@ -523,19 +582,29 @@ func (m *model) maxTypeConds() int {
 }
 
 
-// unionTypenameClass is the applicability half of the recogniser of findingUnionTypename: some
-// abstract-typed field has, on its own selection level (fragments followed, sub-fields not), a
-// fragment on an abstract type (so plan's abstract selection rewriter runs) and a __typename
-// selection whose nearest enclosing type is a union.
-func (m *model) unionTypenameClass() bool {
+// levelInfo describes one selection level (fragments followed, sub-fields not entered).
+type levelInfo struct {
+	abstractFrags int  // fragments whose type condition is an interface or union
+	unionFrags    int  // fragments whose type condition is a union
+	unionTypename int  // __typename selections whose nearest enclosing type is a union
+}
+
+func (m *model) levelInfo(sets []gast.SelectionSet, declared string) levelInfo {
 	isKind := func(name string, k gast.DefinitionKind) bool {
 		d := m.s.Types[name]
 		return d != nil && d.Kind == k
 	}
-	abstract := func(name string) bool { return isKind(name, gast.Interface) || isKind(name, gast.Union) }
-	type lvl struct{ abstractFrags, unionTypename int }
-	var scan func(set gast.SelectionSet, encl string, l *lvl, depth int)
-	scan = func(set gast.SelectionSet, encl string, l *lvl, depth int) {
+	var l levelInfo
+	var scan func(set gast.SelectionSet, encl string, depth int)
+	cond := func(c string) {
+		if isKind(c, gast.Union) {
+			l.unionFrags++
+			l.abstractFrags++
+		} else if isKind(c, gast.Interface) {
+			l.abstractFrags++
+		}
+	}
+	scan = func(set gast.SelectionSet, encl string, depth int) {
 		if depth > 12 {
 			return
 		}
@@ -546,23 +615,32 @@ func (m *model) unionTypenameClass() bool {
 					l.unionTypename++
 				}
 			case *gast.InlineFragment:
-				cond := x.TypeCondition
-				if cond == "" {
-					cond = encl
-				} else if abstract(cond) {
-					l.abstractFrags++
+				c := x.TypeCondition
+				if c == "" {
+					c = encl
+				} else {
+					cond(c)
 				}
-				scan(x.SelectionSet, cond, l, depth+1)
+				scan(x.SelectionSet, c, depth+1)
 			case *gast.FragmentSpread:
 				if fd := m.doc.Fragments.ForName(x.Name); fd != nil {
-					if abstract(fd.TypeCondition) {
-						l.abstractFrags++
-					}
-					scan(fd.SelectionSet, fd.TypeCondition, l, depth+1)
+					cond(fd.TypeCondition)
+					scan(fd.SelectionSet, fd.TypeCondition, depth+1)
 				}
 			}
 		}
 	}
+	for _, s := range sets {
+		scan(s, declared, 0)
+	}
+	return l
+}
+
+// unionTypenameClass is the applicability half of the recogniser of findingUnionTypename: some
+// abstract-typed field has, on its own selection level, a fragment on an abstract type (so
+// plan's abstract selection rewriter runs) and a __typename selection whose nearest enclosing
+// type is a union.
+func (m *model) unionTypenameClass() bool {
 	found := false
 	var walk func(set gast.SelectionSet)
 	walk = func(set gast.SelectionSet) {
@@ -574,9 +652,8 @@ func (m *model) unionTypenameClass() bool {
 					for named.Elem != nil {
 						named = named.Elem
 					}
-					if abstract(named.NamedType) {
-						var l lvl
-						scan(x.SelectionSet, named.NamedType, &l, 0)
+					if d := m.s.Types[named.NamedType]; d != nil && d.IsAbstractType() {
+						l := m.levelInfo([]gast.SelectionSet{x.SelectionSet}, named.NamedType)
 						if l.abstractFrags > 0 && l.unionTypename > 0 {
 							found = true
 						}
@@ -593,4 +670,27 @@ func (m *model) unionTypenameClass() bool {
 		walk(fr.SelectionSet)
 	}
 	return found
+}
+
+// concreteNoTypenameClass is the applicability half of the recogniser of
+// findingConcreteNoTypename: an object at a concrete-typed position has no string __typename
+// while its selection level contains a fragment on a union (normalization keeps such fragments,
+// the plan then carries type conditions inside an object whose type is statically known).
+func (m *model) concreteNoTypenameClass(root *jv) bool {
+	for _, p := range m.positions(root) {
+		if p.t.Elem != nil || p.node == nil || p.node.k != jObj || p.parent == nil {
+			continue
+		}
+		def := m.s.Types[p.t.NamedType]
+		if def.Kind != gast.Object {
+			continue
+		}
+		if tn := p.node.get("__typename"); tn != nil && tn.k == jStr {
+			continue
+		}
+		if m.levelInfo(p.sets, def.Name).unionFrags > 0 {
+			return true
+		}
+	}
+	return false
 }
